@@ -80,6 +80,7 @@ def extract_function(cname, ptext, body, cxx_name):
                 locals_[name] = ("ShadowAddr", ms.group(1))
                 if name == "SH_this":
                     row["this"] = ms.group(1)
+                    row["this_const"] = st.startswith("const ")
                 continue
             if re.match(r"^\w+$", src):
                 if name == "SHC_rv":
@@ -159,6 +160,7 @@ def extract_dir(od, nodes):
         if n.get("splicer") or n.get("user_pattern"):
             r["kind"] = "splicer"            # the body is user / generated splicer text (member getters and setters): not a call wrapper
         r["generated"] = n.get("generated")
+        r["func_const"] = bool(n.get("func_const"))
         rows.append(r)
     return rows
 
@@ -196,7 +198,7 @@ def emit_coq(rows, path):
     items = []
     for r in rows:
         if r.get("missing"):
-            items.append('{| w_name := %s; w_kind := "missing"; w_call := ""; w_this := ""; w_params := []; w_args := []; w_copyouts := []; w_unknown := 99; w_rkind := {| k_group := "?"; k_ptrs := ""; k_intent := "" |}; w_result := RUnknown; w_buf := false |}'
+            items.append('{| w_name := %s; w_kind := "missing"; w_call := ""; w_this := ""; w_params := []; w_args := []; w_copyouts := []; w_unknown := 99; w_rkind := {| k_group := "?"; k_ptrs := ""; k_intent := "" |}; w_result := RUnknown; w_buf := false; w_this_const := false; w_fconst := false |}'
                          % coq_s(r.get("lib", "") + ":" + (r.get("cname") or "?")))
             continue
         try:
@@ -210,12 +212,13 @@ def emit_coq(rows, path):
             unk = len(r["unknown"]) + (1 if r["args"] is None else 0)
             rg, rp, ri = ((r.get("result_kind") or "?||").split("|") + ["", "", ""])[:3]
             items.append("{| w_name := %s; w_kind := %s; w_call := %s; w_this := %s; w_params := [%s]; w_args := [%s]; w_copyouts := [%s]; w_unknown := %d; "
-                         "w_rkind := {| k_group := %s; k_ptrs := %s; k_intent := %s |}; w_result := %s; w_buf := %s |}" % (
+                         "w_rkind := {| k_group := %s; k_ptrs := %s; k_intent := %s |}; w_result := %s; w_buf := %s; w_this_const := %s; w_fconst := %s |}" % (
                 coq_s(r.get("lib", "") + ":" + r["cname"]), coq_s(r["kind"]), coq_s(r["call"]), coq_s(r["this"]), "; ".join(ps), "; ".join(args),
                 "; ".join(coq_s(c) for c, _ in r["copyouts"]), unk, coq_s(rg), coq_s(rp), coq_s(ri), result_conv(r),
-                "true" if r.get("generated") == "arg_to_buffer" else "false"))
+                "true" if r.get("generated") == "arg_to_buffer" else "false",
+                "true" if r.get("this_const") else "false", "true" if r.get("func_const") else "false"))
         except Exception:
-            items.append('{| w_name := "unwritable"; w_kind := "?"; w_call := ""; w_this := ""; w_params := []; w_args := []; w_copyouts := []; w_unknown := 99; w_rkind := {| k_group := "?"; k_ptrs := ""; k_intent := "" |}; w_result := RUnknown; w_buf := false |}')
+            items.append('{| w_name := "unwritable"; w_kind := "?"; w_call := ""; w_this := ""; w_params := []; w_args := []; w_copyouts := []; w_unknown := 99; w_rkind := {| k_group := "?"; k_ptrs := ""; k_intent := "" |}; w_result := RUnknown; w_buf := false; w_this_const := false; w_fconst := false |}')
     with open(path, "w") as f:
         f.write("(* generated on this run: argument flow of every plain C wrapper found in the generated sources *)\n")
         f.write("From Coq Require Import List String.\nFrom Shroud Require Import Model.CallEq.\nImport ListNotations.\nOpen Scope string_scope.\n")
